@@ -400,7 +400,7 @@ func ruleControlLayout(p *Prog, r *Report) {
 			var got [10]string
 			for i := 0; i < 10; i++ {
 				e := in.Elem(hv, i, typByte)
-				got[i] = e.String()
+				got[i] = canonByteTerm(e.String())
 			}
 			var probs []string
 			reqBase := ""
@@ -1158,4 +1158,26 @@ func bigEndianStdlib(p *Prog, fn *ssa.Function) (string, bool) {
 		}
 	}
 	return "multi-byte elements are emitted with binary.BigEndian.AppendUint/PutUint of the element's own width", true
+}
+
+var beByteTerm = regexp.MustCompile(`^byte\(\(?Uint(16|32|64)\((.+)\[(\d+):(\d+)\]\)(?:>>(\d+)\))?\)$`)
+
+// canonByteTerm rewrites byte(UintN(x[a:b]) >> 8k) - one byte of a big-endian
+// read of a window - as the element of x it is: x[a + N/8 - 1 - k].
+func canonByteTerm(t string) string {
+	m := beByteTerm.FindStringSubmatch(t)
+	if m == nil {
+		return t
+	}
+	width, _ := strconv.Atoi(m[1])
+	a, _ := strconv.Atoi(m[3])
+	b, _ := strconv.Atoi(m[4])
+	shift := 0
+	if m[5] != "" {
+		shift, _ = strconv.Atoi(m[5])
+	}
+	if b-a != width/8 || shift%8 != 0 || shift/8 >= width/8 {
+		return t
+	}
+	return fmt.Sprintf("%s[%d]", m[2], a+width/8-1-shift/8)
 }
